@@ -586,6 +586,37 @@ func ops() []op {
 		b.Header.ValidatorsHash = h
 		return resigned(b, c.owner), true
 	})
+	// roots of the wrong length (LIP-0055: every hash in the header is 32 bytes long), re-signed by the owner
+	for _, f := range []string{"stateRoot", "eventRoot", "validatorsHash", "transactionRoot", "assetRoot"} {
+		for _, l := range []int{0, 31, 33} {
+			f, l := f, l
+			add(fmt.Sprintf("root-length:%s=%d", f, l), true, func(c *mctx) (*blockchain.Block, bool) {
+				b := c.clone()
+				var p *codec.Hex
+				switch f {
+				case "stateRoot":
+					p = &b.Header.StateRoot
+				case "eventRoot":
+					p = &b.Header.EventRoot
+				case "validatorsHash":
+					p = &b.Header.ValidatorsHash
+				case "transactionRoot":
+					p = &b.Header.TransactionRoot
+				case "assetRoot":
+					p = &b.Header.AssetRoot
+				}
+				v := append([]byte{}, (*p)...)
+				switch {
+				case l < len(v):
+					v = v[:l]
+				default:
+					v = append(v, 0)
+				}
+				*p = v
+				return resigned(b, c.owner), true
+			})
+		}
+	}
 	sort.Slice(out, func(i, j int) bool { return out[i].name < out[j].name })
 	return out
 }
@@ -875,6 +906,7 @@ func TestRegressTxStaticValidation(t *testing.T) {
 	}
 }
 func TestRegressPayloadSizeLimit(t *testing.T) { regress(t, "payload-above-size-limit") }
+func TestRegressEmptyStateRoot(t *testing.T)    { regress(t, "root-length:stateRoot=0") }
 func TestRegressEventRoot(t *testing.T)        { regress(t, "root-flipped:eventRoot") }
 func TestRegressAggregateBeyondNextParams(t *testing.T) {
 	regress(t, "aggregate-beyond-next-parameter-change")
